@@ -80,6 +80,9 @@ def cases(tier, rng):
     thorough = tier == "thorough"
     for c in directed.rewritten_file_cases():
         yield "directed-rewritten-file", c
+    for c in exprprop.special_cases(rng):
+        c = dict(c, variants=[{}, {}])
+        yield "special", c
     for params, expr, env in BIG:
         for a_repr in (None, SMALL):
             for kind in ("require", "ensure", "invariant"):
